@@ -397,7 +397,7 @@ func TestVerif_C15_Churn(t *testing.T) {
 	c15rigSkipForReplay(t)
 	r := kit.Start(t, "C15")
 	defer r.Finish()
-	r.Rule("population churn between delivery rounds: 29 systematic populations (a staying client whose filter is BELOW (F/x, F/+, F/#, F/x/y) / EQUAL TO / ABOVE / a SIBLING of the filter F of a second client, F = d/1 or d, optional bystander on '#' or d/2) x the way the second client gives F up (UNSUBSCRIBE, DISCONNECT, connection loss, replacement by a new connection with a clean session, UNSUBSCRIBE of the prefix filter F that nobody holds) followed by 2 random steps; then seeded random populations (3-6 clients x 1-3 filters with independent QoS 0/1 from a 16-filter alphabet dense in prefix relations) with 4-6 random steps; steps = UNSUBSCRIBE of 1..all held filters (one packet or one per filter), UNSUBSCRIBE of a filter not held (alphabet or an interior trie node), DISCONNECT, connection loss, clean-session take-over (old connection closed at once or left open), SUBSCRIBE of 1-2 further filters, a client that left connects again; 2 fresh brokers per population with shuffled connect/SUBSCRIBE order and their own random steps; before the first and after EVERY step all (topic, QoS 0/1) messages are injected through httpTopicsPublishHandler in bursts of 1-8 and every client connected now is judged against the eligibility model over its CURRENT subscriptions; distinct = (step kind, own/peer step, trie relation of the judged client's matching subscription to the changed filters, message QoS, the client's (minQ,maxQ) for the topic, delivered)")
+	r.Rule("population churn between delivery rounds: 29 systematic populations (a staying client whose filter is BELOW (F/x, F/+, F/#, F/x/y) / EQUAL TO / ABOVE / a SIBLING of the filter F of a second client, F = d/1 or d, optional bystander on '#' or d/2) x the way the second client gives F up (UNSUBSCRIBE, DISCONNECT, connection loss, replacement by a new connection with a clean session, UNSUBSCRIBE of the prefix filter F that nobody holds) followed by 2 random steps; then seeded random populations (3-6 clients x 1-3 filters with independent QoS 0/1 from a 16-filter alphabet dense in prefix relations) with 4-6 random steps; steps = UNSUBSCRIBE of 1..all held filters (one packet or one per filter), UNSUBSCRIBE of a filter not held (alphabet or an interior trie node), DISCONNECT, connection loss, clean-session take-over (old connection closed at once or left open), SUBSCRIBE of 1-2 further filters, a client that left connects again; 2 fresh brokers per population with shuffled connect/SUBSCRIBE order and their own random steps; before the first and after EVERY step all (topic, QoS 0/1) messages are injected through httpTopicsPublishHandler in bursts of 1-8 and every client connected now is judged against the eligibility model over its CURRENT subscriptions; payload content of every message from the classes of the Delivery part (ascii id alone, id|binary 0 B - 4 KB incl. all byte values and non-UTF-8 bytes, id|UTF-8 / printable / control text, at most one completely empty payload per broker), plain JSON string or base64 flag; a message is recognised by the id at the start of its payload, every received copy must have exactly the published bytes and nothing but published messages may arrive; distinct = (step kind, own/peer step, trie relation of the judged client's matching subscription to the changed filters, message QoS, the client's (minQ,maxQ) for the topic, delivered)")
 	r.Assume("every step is complete before the next round starts (UNSUBACK/SUBACK/CONNACK seen, or the broker closed the leaving connection, which it does after its teardown); all sessions are clean sessions; a client never re-subscribes a filter it currently holds (replacement semantics are not part of the property sentence); copies that reach clients without an eligible current subscription are counted, not judged; a loss that was already reported for a client's subscription is not reported again in later rounds of the same broker instance")
 	sys := c15churnSys()
 	n := r.N(48, 2400)
@@ -438,6 +438,9 @@ func TestVerif_C15_Churn(t *testing.T) {
 	r.Require("churn_delivered_q0", 1)
 	r.Require("churn_delivered_q1", 1)
 	r.Require("churn_ping_barriers", 1)
+	for _, g := range []string{"ascii-id", "empty", "text", "binary"} {
+		r.Require("churn_delivered_identical_payload_kind:"+g, 1)
+	}
 }
 
 func c15churnUnsubscribe(c *c15rigClient, filters []string) string {
@@ -542,13 +545,26 @@ func c15churnRun(r *kit.Run, rng *rand.Rand, caseNo, inst int, pop c15Pop, scrip
 		reported[i] = map[string]bool{}
 	}
 	seq := 0
+	strange := map[string]bool{}
+	known := map[string]string{} // identity -> published bytes, of everything injected into this broker
+	// at most one message per broker instance has the completely empty payload (it cannot carry an id)
+	emptyAt := -1
+	if plr := r.Rand(fmt.Sprintf("churn-empty/%d/%d", caseNo, inst)); plr.Intn(2) == 0 {
+		emptyAt = plr.Intn((len(script) + 1) * 2 * len(pop.Topics))
+	}
 	// round injects every (topic, qos) and judges; last = the step executed just before (nil: none
 	// yet), touched = the filters it changed.
 	round := func(no int, last *c15churnStep, touched []string) bool {
 		var msgs []c15msg
 		for _, tp := range pop.Topics {
 			for q := 0; q <= 1; q++ {
-				msgs = append(msgs, c15msg{Topic: tp, QoS: q, Payload: fmt.Sprintf("ch%d.%d.%d.%d", caseNo, inst, no, seq), Dist: rng.Intn(2) == 0})
+				class := ""
+				if seq == emptyAt {
+					class = c15plEmpty
+				}
+				mg := c15msg{Topic: tp, QoS: q, PL: c15mkPayload(r, fmt.Sprintf("ch%d.%d.%d.%d", caseNo, inst, no, seq), class), Dist: rng.Intn(2) == 0}
+				known[mg.PL.ID] = mg.PL.Data
+				msgs = append(msgs, mg)
 				seq++
 			}
 		}
@@ -561,8 +577,8 @@ func c15churnRun(r *kit.Run, rng *rand.Rand, caseNo, inst int, pop c15Pop, scrip
 			burst := msgs[:k]
 			msgs = msgs[k:]
 			for _, mg := range burst {
-				if code := rb.httpPublish(mg.Topic, mg.QoS, mg.Payload, mg.Dist); code != 200 {
-					r.Violation(fmt.Sprintf("http-publish-rejected:%d", code), map[string]interface{}{"msg": mg})
+				if code := c15httpPublish(rb, mg.Topic, mg.QoS, mg.PL, mg.Dist); code != 200 {
+					r.Violation(fmt.Sprintf("http-publish-rejected:%d%s", code, c15plSuffix(mg.PL)), map[string]interface{}{"msg": mg})
 				}
 			}
 			if !rb.publishQuiesced() {
@@ -591,7 +607,13 @@ func c15churnRun(r *kit.Run, rng *rand.Rand, caseNo, inst int, pop c15Pop, scrip
 				}
 				got[ci] = map[string][]c15rigEvt{}
 				for _, e := range c.pubs() {
-					got[ci][e.Payload] = append(got[ci][e.Payload], e)
+					// by the identity the payload carries; the bytes are compared in the judge
+					k := c15plKey(e.Payload)
+					got[ci][k] = append(got[ci][k], e)
+					if _, ok := known[k]; !ok && !strange[e.Payload] {
+						strange[e.Payload] = true
+						r.Violation("delivered-payload-of-no-published-message", map[string]interface{}{"population": pop, "client": pop.Clients[ci], "topic": e.Topic, "received": c15plShow(e.Payload), "steps_done": script[:no], "part": "churn"})
+					}
 				}
 			}
 			for _, mg := range burst {
@@ -705,7 +727,7 @@ func c15churnJudge(r *kit.Run, pop c15Pop, m *c15churnModel, got []map[string][]
 		}
 		minQ, maxQ := c15elig(c15ClientSpec{Subs: m.subs[ci]}, mg.Topic)
 		idx[ci] = len(sts)
-		sts = append(sts, st{CID: pop.Clients[ci].CID, Subs: m.subs[ci], MinQ: minQ, MaxQ: maxQ, Owed: maxQ >= mg.QoS, Copies: len(got[ci][mg.Payload])})
+		sts = append(sts, st{CID: pop.Clients[ci].CID, Subs: m.subs[ci], MinQ: minQ, MaxQ: maxQ, Owed: maxQ >= mg.QoS, Copies: len(got[ci][mg.PL.ID])})
 		if maxQ >= 0 && maxQ < mg.QoS {
 			lowerStrict++
 		}
@@ -746,12 +768,20 @@ func c15churnJudge(r *kit.Run, pop c15Pop, m *c15churnModel, got []map[string][]
 		}
 		if s.Copies > 0 {
 			r.Count(fmt.Sprintf("churn_delivered_q%d", mg.QoS), 1)
-			bad := false
-			for _, e := range got[ci][mg.Payload] {
+			bad, altered := false, ""
+			for _, e := range got[ci][mg.PL.ID] {
 				bad = bad || e.Topic != mg.Topic || int(e.QoS) != mg.QoS
+				if e.Payload != mg.PL.Data {
+					altered = c15plShow(e.Payload)
+				}
 			}
 			if bad {
 				r.Violation("delivered-with-wrong-topic-or-qos", map[string]interface{}{"population": pop, "msg": mg, "client": s, "part": "churn"})
+			}
+			if altered != "" {
+				r.Violation(fmt.Sprintf("delivered-payload-differs-from-published:q%d%s", mg.QoS, c15plSuffix(mg.PL)), map[string]interface{}{"population": pop, "msg": mg, "client": s, "received": altered, "part": "churn"})
+			} else {
+				r.Count("churn_delivered_identical_payload_kind:"+c15plGroup(mg.PL.Class), 1)
 			}
 			if last != nil {
 				if who == "own" {
@@ -781,6 +811,9 @@ func c15churnJudge(r *kit.Run, pop c15Pop, m *c15churnModel, got []map[string][]
 			note = ":same-client-mixed-qos-overlap"
 		case lowerStrict > 0:
 			note = ":lower-qos-subscriber-present"
+		}
+		if note == "" && last == nil {
+			note = c15plSuffix(mg.PL) // neither churn nor the population explains the loss: name the payload kind
 		}
 		sig := fmt.Sprintf("delivery-missed:q%d:before-any-churn%s", mg.QoS, note)
 		if last != nil {
